@@ -21,6 +21,19 @@ Newton steps unrolled in plain torch from the detached returned point with the c
 all orders in theta, equal to the solution to O(residual^2).  y0, the unused tensor and tensors with requires_grad=False
 get no gradient.  A twin configuration (other forward method / initial guess / backward solver) must give the same
 gradients (each is compared with its own dense reference and the two with each other).
+
+Cotangents that are zero in value (second order only; the references are the same unrolled Newton map, same tolerance):
+  loss=fit    L = 1/2 <y - t, w (y - t)>, t = y.detach(), w = |W| + 0.5: the cotangent reaching the backward is exactly 0 but depends on
+              theta.  First order must be 0, second order must be the Gauss-Newton term  d/dtheta <C, dL/dtheta> = J^H w J C.
+  loss=trick  the double-backward trick (torch.autograd.functional.jvp): vjp(u) = J^H u recorded at u = zeros(requires_grad=True);
+              d/du <C, vjp(u)> must be the Jacobian-vector product J C of the reference and d/dtheta of it 0.
+again=True: every backward (first order and second order) is run a second time through the same retained graph, the global torch generator
+being re-seeded before each run (the Krylov set-up draws a probe vector from it): the two results must be identical bit for bit - the
+backward must not consume or alter state (options dictionaries, saved operators) that a second run needs.
+Two slots: with probability 1/5 the second effective tensor is an alias of the first (the same tensor object twice in `params`, in `params`
+and in the object, or under two names of the object); the nn kinds also place a Parameter explicitly and in the module when an object-held
+product depends on it.  Otherwise, with probability 1/6, an explicit tensor without requires_grad is placed before a differentiable explicit
+tensor (pure: leaves (const, grad); object kinds: the first effective tensor explicit and constant, followed by the explicit unused tensor).
 """
 from __future__ import annotations
 
@@ -39,7 +52,11 @@ RULE = ("families tanh / mono / csin (complex, holomorphic in y) / quad realised
         "em_cont, em_nn, sib1, sib2; derived effective tensors, optional unused tensor, non-tensor scale, leaves with and without requires_grad); "
         "n 2..8 and 1-3 rows so that N = numel(y) crosses the dense(<=5)/Krylov(>5) default of the backward solve; APIs rootfinder / equilibrium "
         "/ minimize x every forward method; bck_options default / exactsolve / cg / bicgstab / gmres (tight tolerances); first and second order; "
-        "y0 with/without requires_grad; optional twin configuration. Non-trivial = at least one leaf requires grad, its reference gradient is "
+        "y0 with/without requires_grad; optional twin configuration; loss linear <W,y> / least-squares at a perfect fit (zero cotangent with a "
+        "graph, Gauss-Newton second order) / double-backward trick (vjp at u=zeros(requires_grad) differentiated w.r.t. u = jvp); every backward "
+        "optionally run twice through the same retained graph (bit-identical); one tensor in two slots (alias of the first effective tensor: "
+        "twice in params / params and object / two names of the object); explicit tensors without requires_grad before differentiable ones. "
+        "Non-trivial = at least one leaf requires grad, its reference gradient (the second-order reference for the fit / trick losses) is "
         "non-zero and the forward solver evaluated the function >= 3 times; distinct by canonical case.")
 ASSUMPTIONS = [
     "forward tolerances are tight (f_tol 1e-10 for root solvers / anderson, x_tol 1e-11 step for gd) except adam (only the first-order check "
@@ -49,6 +66,10 @@ ASSUMPTIONS = [
     "second order: |g2 - ref2| <= 100 kap^2 (res + tol_b + 1e3 N eps) (1 + max|ref2|) with res the measured residual of the returned point",
     "the reference Jacobians are closed forms (cross-checked against torch.autograd.functional.jacobian in the module's self test)",
     "complex: the function is holomorphic in y only; gradients w.r.t. complex leaves follow torch's convention on both sides",
+    "fit / trick losses: same second-order tolerance, scale = the reference Gauss-Newton product / Jacobian-vector product; the first-order "
+    "gradient (reference 0) is held to the first-order tolerance",
+    "a second backward through the same retained graph, with the global torch generator re-seeded to the same state, is bit-identical "
+    "(single-threaded deterministic CPU kernels; no documented state is consumed by backward)",
 ]
 LEVEL_TEXT = ("Exploration against two independent plain-torch references (dense implicit-function formula at the returned point; unrolled Newton "
               "iteration differentiated twice), over parameter placement kinds and forward/backward solver configurations.")
@@ -188,9 +209,24 @@ def bck_options(name):
     return {"method": name, "rtol": 1e-11, "atol": 1e-14}, 1e-11
 
 
-def run_config(case, cfg, leaves_vals, g, labels, second):
+def same_bits(a, b):
+    """two results of one backward are the same: None in the same places, equal shapes and bit-identical values"""
+    if a is None or b is None:
+        return a is None and b is None
+    return a.shape == b.shape and a.dtype == b.dtype and bool(torch.equal(a.detach(), b.detach()))
+
+
+def run_config(case, cfg, leaves_vals, g, labels, second, primary=True):
     """build fresh leaves/function, run forward+backward for one configuration, compare with the references.
-    returns (verdict or None, info)"""
+    returns (verdict or None, info)
+
+    loss modes of the primary configuration (second order, not adam; `linear` otherwise):
+      linear   L = Re<W, y>: the cotangent reaching the backward is the constant W
+      fit      L = 1/2 <y - t, w (y - t)> with t = y.detach(), w > 0: the cotangent is exactly zero in value but depends on theta;
+               the first-order gradient is 0 and the second-order one is the Gauss-Newton term J^H w J
+      trick    the double-backward trick of torch.autograd.functional.jvp: the vjp u -> J^H u is recorded at u = zeros(requires_grad)
+               and differentiated w.r.t. u, which gives the Jacobian-vector product J c (and 0 w.r.t. theta)
+    `again`: every backward (first and second order) is run twice through the same retained graph; the results must be bit-identical."""
     import xitorch.optimize as xo
     fam, api, n, rows = case["fam"], case["api"], case["n"], case["rows"]
     spec = case["spec"]
@@ -215,7 +251,7 @@ def run_config(case, cfg, leaves_vals, g, labels, second):
     apifn = {"rootfinder": xo.rootfinder, "equilibrium": xo.equilibrium, "minimize": xo.minimize}[api]
     with R.Recorder() as rec:
         y = xt_call(apifn, fcn, y0, params=params, bck_options=bopt, method=method, _where="forward", **fopt)
-    out = {"evals": counter.n}
+    out = {"evals": counter.n, "mode": "linear"}
     if rec.warned:
         return discard("forward_warned", labels), out
     diff_leaves = [l for l in leaves if l.requires_grad]
@@ -229,11 +265,39 @@ def run_config(case, cfg, leaves_vals, g, labels, second):
             return None, out
     if diff_leaves and not y.requires_grad:
         return violation("no_graph", "the solution does not require grad although %d leaves do" % len(diff_leaves), labels), out
-    loss = inner(W, y)
+    mode = case.get("loss", "linear") if (primary and second and method != "adam") else "linear"
+    again = bool(case.get("again")) and primary
+    if primary:
+        labels.append("loss=" + mode)
+        labels.append("again=%s" % again)
+    wpos = W.abs() + 0.5
+    u = None
+    out["mode"] = mode
+    if mode == "fit":
+        D = y - y.detach()
+        outputs, gouts = 0.5 * inner(D, wpos * D), None
+    elif mode == "trick":
+        u = torch.zeros(shape, dtype=dtype, requires_grad=True)
+        outputs, gouts = y, u
+    else:
+        outputs, gouts = inner(W, y), None
+    bw = dict(grad_outputs=gouts, create_graph=second, allow_unused=True, _where="backward")
+    if again:
+        bw["retain_graph"] = True
+    torch.manual_seed(case["seed"] & 0x7FFFFFFF)      # the Krylov set-up draws its probe vector from the global generator
     with R.Recorder() as rec:
-        got = xt_call(torch.autograd.grad, loss, wrt, create_graph=second, allow_unused=True, _where="backward")
+        got = xt_call(torch.autograd.grad, outputs, wrt, **bw)
     if rec.warned:
         return discard("backward_warned:" + cfg["bck"], labels), out
+    if again:
+        torch.manual_seed(case["seed"] & 0x7FFFFFFF)
+        got_b = xt_call(torch.autograd.grad, outputs, wrt, **bw)
+        for k, (ga, gb) in enumerate(zip(got, got_b)):
+            if not same_bits(ga, gb):
+                return violation("backward_twice", "the second backward through the same graph differs from the first for input #%d (%s/%s, bck=%s, "
+                                 "loss=%s, order %d): first %s second %s" % (k, api, method, cfg["bck"], mode, 2 if second else 1,
+                                                                              None if ga is None else ga.reshape(-1)[:3].tolist(),
+                                                                              None if gb is None else gb.reshape(-1)[:3].tolist()), labels), out
 
     # ---------------- no-gradient inputs
     for t, gk in zip(wrt[len(diff_leaves):], got[len(diff_leaves):]):
@@ -252,7 +316,7 @@ def run_config(case, cfg, leaves_vals, g, labels, second):
     out["res"] = res
     kap = kappa(fam, n)
     J = jac_rows(fam, Yd, eff[0].detach(), eff[1].detach(), scale)                 # (R, n, n)
-    gy = W.reshape(-1, n)                                                           # d loss / d y (torch convention)
+    gy = (W if mode == "linear" else torch.zeros_like(W)).reshape(-1, n)           # d loss / d y (torch convention); 0 for fit / trick
     v = -torch.linalg.solve(J.conj().transpose(-2, -1), gy.unsqueeze(-1)).squeeze(-1)
     fval = f_rows(fam, Yd, eff[0], eff[1], scale)
     ref1 = grads(inner(v, fval), diff_leaves)
@@ -283,30 +347,87 @@ def run_config(case, cfg, leaves_vals, g, labels, second):
             F = f_rows(fam, Y, eff[0], eff[1], scale)
             Jk = jac_rows(fam, Y, eff[0], eff[1], scale)
             Y = Y - torch.linalg.solve(Jk, F.unsqueeze(-1)).squeeze(-1)
-        loss_ref = inner(W, Y.reshape(shape))
-        r1 = grads(loss_ref, diff_leaves, create_graph=True)
+        Ys = Y.reshape(shape)
+        targets, rtargets = list(diff_leaves), list(diff_leaves)
+        if mode == "fit":
+            Dr = Ys - Ys.detach()
+            r1 = grads(0.5 * inner(Dr, wpos * Dr), diff_leaves, create_graph=True)
+        elif mode == "trick":
+            ur = torch.zeros(shape, dtype=dtype, requires_grad=True)
+            r1 = torch.autograd.grad(Ys, diff_leaves, grad_outputs=ur, create_graph=True, allow_unused=True)
+            r1 = [torch.zeros_like(x) if rk is None else rk for rk, x in zip(r1, diff_leaves)]
+            targets, rtargets = targets + [u], rtargets + [ur]
+        else:
+            r1 = grads(inner(W, Ys), diff_leaves, create_graph=True)
         S_ref = sum(inner(c, rk) for c, rk in zip(C, r1))
-        ref2 = grads(S_ref, diff_leaves)
+        ref2 = grads(S_ref, rtargets)
+        kind2 = {"linear": "grad2", "fit": "fit_grad2", "trick": "trick_jvp"}[mode]
+        if mode != "linear":
+            out["nonzero"] = any(float(r.abs().max()) > 0 for r in ref2)
         if not terms:
             if any(float(r.abs().max()) > 0 for r in ref2):
-                return violation("no_second_graph", "create_graph=True produced first-order gradients without graph", labels), out
+                return violation("no_second_graph", "create_graph=True produced first-order gradients without graph (loss=%s)" % mode, labels), out
             return None, out
+        bw2 = dict(allow_unused=True, _where="backward2")
+        if again:
+            bw2["retain_graph"] = True
+        torch.manual_seed(case["seed"] & 0x7FFFFFFF)
         with R.Recorder() as rec:
-            got2 = xt_call(torch.autograd.grad, sum(terms), diff_leaves, allow_unused=True, _where="backward2")
+            got2 = xt_call(torch.autograd.grad, sum(terms), targets, **bw2)
         if rec.warned:
             return discard("backward2_warned:" + cfg["bck"], labels), out
+        if again:
+            torch.manual_seed(case["seed"] & 0x7FFFFFFF)
+            got2_b = xt_call(torch.autograd.grad, sum(terms), targets, **bw2)
+            for k, (ga, gb) in enumerate(zip(got2, got2_b)):
+                if not same_bits(ga, gb):
+                    return violation("backward2_twice", "the second run of the second-order backward through the same graph differs from the first "
+                                     "for target #%d (%s/%s, bck=%s, loss=%s): first %s second %s" % (
+                                         k, api, method, cfg["bck"], mode, None if ga is None else ga.reshape(-1)[:3].tolist(),
+                                         None if gb is None else gb.reshape(-1)[:3].tolist()), labels), out
         tol2 = 100 * kap ** 2 * (res + tol_b + 1e3 * N * EPS)
         worst2 = 0.0
-        for k, (gk, rk, x) in enumerate(zip(got2, ref2, diff_leaves)):
+        for k, (gk, rk, x) in enumerate(zip(got2, ref2, targets)):
             gk0 = torch.zeros_like(x) if gk is None else gk.detach()
             err = float((gk0 - rk.detach()).abs().max())
             sc = float(rk.detach().abs().max())
             worst2 = max(worst2, err / (tol2 * (1 + sc)))
             if not err <= tol2 * (1 + sc):
-                return violation("grad2", "second-order gradient w.r.t. leaf #%d (%s/%s, bck=%s, kind=%s, N=%d): got %s ref %s, err %.3e > tol %.3e" % (
-                    k, api, method, cfg["bck"], spec["kind"], N, gk0.reshape(-1)[:3].tolist(), rk.detach().reshape(-1)[:3].tolist(), err, tol2 * (1 + sc)), labels), out
+                what = "the cotangent u (= Jacobian-vector product)" if x is u else "leaf #%d" % k
+                return violation(kind2, "second-order gradient (loss=%s) w.r.t. %s (%s/%s, bck=%s, kind=%s, N=%d): got %s ref %s, err %.3e > tol %.3e" % (
+                    mode, what, api, method, cfg["bck"], spec["kind"], N, gk0.reshape(-1)[:3].tolist(), rk.detach().reshape(-1)[:3].tolist(),
+                    err, tol2 * (1 + sc)), labels), out
         out["ratio2"] = worst2
     return None, out
+
+
+def two_slots(spec):
+    """how one tensor object reaches the function through two parameter slots of one call (None: it does not)"""
+    derive, kind = spec["derive"], spec["kind"]
+    explicit = [True] * len(derive) if kind == "pure" else list(spec["explicit"])
+    if any(rec[0] == "alias" for rec in derive):
+        j = [rec[0] for rec in derive].index("alias")
+        if explicit[j] and explicit[derive[j][1]]:
+            return "explicit_twice"
+        if explicit[j] != explicit[derive[j][1]]:
+            return "alias_explicit_and_object"
+        return "alias_object_twice"
+    if kind in ("nn", "nn_nested", "em_nn", "sib2"):
+        # leaves are Parameters of the object whenever an object-held effective tensor depends on them
+        held = {i for j, rec in enumerate(derive) if not explicit[j] for i in rec[1:]}
+        if any(explicit[j] and rec[0] == "id" and rec[1] in held for j, rec in enumerate(derive)):
+            return "explicit_and_object"
+    return None
+
+
+def nondiff_before_diff(spec, req):
+    """an explicit tensor without requires_grad precedes an explicit tensor with requires_grad in `params`"""
+    derive, kind = spec["derive"], spec["kind"]
+    explicit = [True] * len(derive) if kind == "pure" else list(spec["explicit"])
+    flags = [any(req[i] for i in gen._leaf_deps(derive, j)) for j in range(len(derive)) if explicit[j]]
+    if spec.get("unused") == "explicit":
+        flags.append(True)
+    return any((not a) and any(flags[k + 1:]) for k, a in enumerate(flags))
 
 
 def run_case(case):
@@ -331,6 +452,7 @@ def _run_case(case):
               "backward_solver=" + ("dense" if (cfg["bck"] == "exactsolve" or (cfg["bck"] == "default" and N <= 5)) else "krylov"),
               "order=%d" % case["order"], "unused=%s" % spec.get("unused"), "nontensor=%s" % spec.get("nontensor"),
               "y0grad=%s" % cfg["y0grad"], "nleafgrad=%d" % sum(case["req"]), "twin=%s" % (case.get("twin") is not None),
+              "two_slots=%s" % two_slots(spec), "nondiff_before_diff=%s" % nondiff_before_diff(spec, case["req"]),
               "order%d_%s_%s" % (case["order"], "obj" if spec["kind"] != "pure" else "pure",
                                  "dense" if (cfg["bck"] == "exactsolve" or (cfg["bck"] == "default" and N <= 5)) else "krylov")]
     v, a = run_config(case, cfg, vals, g, labels, second)
@@ -342,12 +464,12 @@ def _run_case(case):
             r = a[key]
             labels.append("%s_err/tol_%s=%s" % (key, "dense" if "backward_solver=dense" in labels else "krylov",
                                                "<1e-4" if r < 1e-4 else "<1e-2" if r < 1e-2 else "<0.1" if r < 0.1 else "<1"))
-    if case.get("twin") is not None and "grad1" in a:
+    if case.get("twin") is not None and "grad1" in a and a["mode"] == "linear":
         g2 = gen.seeded(case["seed"] + 1)
         # same cotangent: re-seed the generator used for W
         gW = gen.seeded(case["seed"])
         _ = [gen.randn(gW, (n, n), dtype), gen.randn(gW, (n, n), dtype)]
-        v, b = run_config(case, case["twin"], vals, gW, labels, False)
+        v, b = run_config(case, case["twin"], vals, gW, labels, False, primary=False)
         if v is not None:
             if v.status == "discard":
                 return ok(labels + ["twin_discarded"], nontrivial=nontrivial)
@@ -385,9 +507,23 @@ def case_st(draw, tier="quick"):
     req = [draw(st.sampled_from([True, True, False])), draw(st.sampled_from([True, True, False]))]
     if not any(req):
         req[draw(st.integers(0, 1))] = True
+    if draw(st.sampled_from([False, False, False, False, True])):
+        # the second effective tensor IS the first one: the same tensor object in two slots (twice in params / explicitly and in the
+        # object / under two names of the object); E1 = E0 is inside the domain (the bounds hold whatever the values)
+        spec["derive"][1] = ["alias", 0]
+        req[0] = True
+    elif draw(st.sampled_from([False, False, False, False, False, True])):
+        # an explicit tensor without requires_grad precedes a differentiable explicit tensor in params (object kinds: the first effective
+        # tensor explicit and constant, then the explicit unused tensor, which requires grad)
+        req = [False, True]
+        if spec["kind"] != "pure":
+            spec["explicit"] = [True, False]
+            spec["unused"] = "explicit"
     case = {"api": api, "fam": fam, "n": n, "rows": rows, "spec": spec, "req": req,
             "order": draw(st.sampled_from([1, 2, 2])), "cfg": draw(cfg_st(api, fam)),
             "twin": draw(st.one_of(st.none(), st.none(), cfg_st(api, fam))),
+            "loss": draw(st.sampled_from(["linear", "linear", "linear", "fit", "trick"])),
+            "again": draw(st.sampled_from([False, False, True])),
             "seed": draw(st.integers(0, 2 ** 31 - 1))}
     return case
 
